@@ -62,6 +62,10 @@ def canOpen (c : Nat) (m : Med) (id : Nat) : Bool :=
 def stepLine (cfg : Cfg) (m : Med) (seq : Nat) (op : String) : Option (Med × String) :=
   match op.splitOn " " with
   | ["add", c, k] => do let c ← clientOf c; let k ← keyOf k; pure ((m.step (.add c k)).1, "ok:success")
+  | ["addb", c, k] =>     -- the registration reaches a second instance of the mediator over the same store: same effect
+    do let c ← clientOf c; let k ← keyOf k; pure ((m.step (.add c k)).1, "ok:success")
+  | ["addf", c, k] =>     -- the store fails during the registration: the client is told, the route table is as before
+    do let _ ← clientOf c; let _ ← keyOf k; pure (m, "ok:server_error")
   | ["rem", c, k] => do let c ← clientOf c; let k ← keyOf k; pure ((m.step (.rem c k)).1, "ok:server_error")
   | ["off", c] => do let c ← clientOf c; pure ((m.step (.off c)).1, "ok")
   | ["on", c] => do let c ← clientOf c; pure ((m.step (.on c)).1, "ok")
@@ -149,6 +153,10 @@ def specStep (cfg : Cfg) (s : SpecState) (seq : Nat) (op : String) : Option (Spe
   | ["add", c, k] => do
     let c ← clientOf c; let k ← keyOf k
     pure ({ s with hist := .add c k :: s.hist }, "ok:success")
+  | ["addb", c, k] => do
+    let c ← clientOf c; let k ← keyOf k
+    pure ({ s with hist := .add c k :: s.hist }, "ok:success")
+  | ["addf", c, k] => do let _ ← clientOf c; let _ ← keyOf k; pure (s, "ok:server_error")
   | ["rem", c, k] => do let _ ← clientOf c; let _ ← keyOf k; pure (s, "ok:server_error")
   | ["off", c] => do let c ← clientOf c; pure ({ s with offline := c :: s.offline }, "ok")
   | ["on", c] => do let c ← clientOf c; pure ({ s with offline := s.offline.filter (· != c) }, "ok")
